@@ -132,6 +132,7 @@ class World:
         m['j1939.electronic_control_unit'].time = tm
         m['j1939.j1939_21'].time = tm
         m['j1939.j1939_22'].time = tm
+        m['j1939.j1939_22'].print = lambda *a, **k: None      # the library prints diagnostics for unsupported C-PG formats
         self.stacks = []
 
     @property
